@@ -102,6 +102,7 @@ type sgPeerState struct {
 	closed        bool
 	gen           *sgGenState
 	explicitPrefs bool // SetCodecPreferences was given codecs with explicit (local) payload types
+	anyPrefs      bool // SetCodecPreferences was called at all
 	trackOf       map[*RTPSender]TrackLocal
 	trackSet      []*RTPSender
 	handlerAns    []SessionDescription // answers the OnSignalingStateChange handler created
@@ -575,6 +576,9 @@ func (r *sgRun) exec(i int, op sgOp) {
 			}
 		}
 		err = tr.SetCodecPreferences(sel)
+		if err == nil {
+			ps.anyPrefs = true // (an empty list resets the transceiver to the connection-wide codec list)
+		}
 		if err == nil && op.B&1 == 0 && len(sel) > 0 {
 			ps.explicitPrefs = true
 		}
